@@ -8,11 +8,21 @@
     operation returns no I/O error and does not panic ([C05_lookups_and_touches]),
     on every run and for every participant of every pool under every schedule
     whose received responses were all in that class.
-    For the writers (set, put, ensure, get_or_update, maintenance) the same claim
-    is decided by lost-race injection at every shared-path call and by
-    exhaustive context-switch exploration of real processes (vlib/c05.py). *)
+    For the writers - set / put on a plain or sharded write cache with their
+    maintenance (listing, reprieves, evictions, temp-directory sweep, the probe of
+    the secondary shard, maintenance of another shard), at directory level and
+    through the stack API (set, put, set_temp_file, put_temp_file) - the same: the allowed actions of others can make a call that names an
+    ENTRY answer with an absence error and make the publishing link find the name
+    taken; they cannot touch the writer's private source file, remove a
+    directory, or fail a descriptor-based call.  As long as every response lies
+    in that class the write returns no I/O error and does not panic, whether the
+    trigger fires or not, whatever the listing shows and whichever entry vanishes
+    between the listing and its use ([C05_writers], [C05_writers_in_any_pool]).
+    ensure / get_or_update, and that the class IS what real
+    peers can cause: lost-race injection at every shared-path call and exhaustive
+    context-switch exploration of real processes (vlib/c05.py). *)
 From Coq Require Import List NArith ZArith String Bool.
-From Kismet Require Import FS.Fs FS.Prog Spec.Wp Ops.Ops Conc.Pool Proofs.RaceFree Proofs.PoolLift.
+From Kismet Require Import Pure.Hash FS.Fs FS.Prog Spec.Wp Ops.Ops Conc.Pool Proofs.RaceFree Proofs.PoolLift Proofs.RaceFreeW Proofs.PutNeverOverwrites.
 Import ListNotations.
 
 Theorem C05_lookups_and_touches : forall cfg k,
@@ -29,6 +39,82 @@ Proof. intros cfg k w o H. apply (race_free_run _ (rf_cache_get cfg k H)). Qed.
 Theorem C05_in_any_pool : forall cfg k, s_checker cfg = None ->
   race_free_in_any_pool (cache_get cfg k) /\ race_free_in_any_pool (cache_touch cfg k).
 Proof. intros cfg k H. split; apply rf_pool; [apply rf_cache_get, H|apply rf_cache_touch]. Qed.
+
+(** Writers: a plain set / put at directory level and through the stack API, with
+    whatever maintenance the trigger starts. *)
+Theorem C05_directory_writers : forall (which : bool) d name v, cd_base d ++ [name] <> v ->
+  rw v (cd_publish (if which then insert_or_update else insert_or_touch) d name v) no_io_error.
+Proof. intros which d name v H. exact (rw_cd_publish v which d name H). Qed.
+
+Theorem C05_writers : forall (which : bool) cfg f k v,
+  s_writer cfg = Some f ->
+  match f with
+  | FPlain dir _ => dir ++ [k_name k] <> v
+  | FSharded dir _ _ => forall id, (dir ++ [format_id id]) ++ [k_name k] <> v
+  end ->
+  rw v (if which then cache_set cfg k v else cache_put cfg k v) no_io_error.
+Proof. intros which cfg f k v Hw Hd. exact (rw_cache_write v which cfg f k Hw Hd). Qed.
+
+Theorem C05_writers_on_every_run : forall cfg f k v w o,
+  s_writer cfg = Some f -> front_ok v f k ->
+  let '(r, _, _, tr) := run (cache_set cfg k v) w o in mon_run (w_step v) true tr = Some true -> no_io_error r.
+Proof. intros cfg f k v w o Hw Hd. exact (writers_race_free_run v _ (rw_cache_write v true cfg f k Hw Hd) w o). Qed.
+
+Theorem C05_writers_in_any_pool : forall cfg f k v,
+  s_writer cfg = Some f -> front_ok v f k ->
+  writers_race_free_in_any_pool v (cache_set cfg k v) /\ writers_race_free_in_any_pool v (cache_put cfg k v).
+Proof.
+  intros cfg f k v Hw Hd. split; apply rw_pool.
+  - exact (rw_cache_write v true cfg f k Hw Hd).
+  - exact (rw_cache_write v false cfg f k Hw Hd).
+Qed.
+
+Theorem C05_temp_file_writers : forall (which : bool) cfg f k fd p,
+  s_writer cfg = Some f -> front_ok p f k ->
+  rw p (cache_write_temp which cfg k fd p) no_io_error /\ writers_race_free_in_any_pool p (cache_write_temp which cfg k fd p).
+Proof.
+  intros which cfg f k fd p Hw Hd.
+  pose proof (rw_cache_write_temp p which cfg f k fd Hw Hd) as H. split; [exact H|exact (rw_pool p _ H)].
+Qed.
+
+(** The writers' response class, spelled out: absence on calls naming an entry
+    (never on the private source), EEXIST on the link, nothing else. *)
+Theorem C05_writer_race_class : forall v p q e fl,
+  p <> v ->
+  wrace_ok v (CStat p fl) (RErr e) = absent_errno e /\ wrace_ok v (CStat v fl) (RErr e) = false /\
+  wrace_ok v (CUnlink p) (RErr e) = absent_errno e /\ wrace_ok v (COpenDir p) (RErr e) = absent_errno e /\
+  wrace_ok v (CRename p q) (RErr e) = false /\ wrace_ok v (CChmod p 292) (RErr e) = false /\
+  wrace_ok v (CLink p q) (RErr e) = (match e with EEXIST => true | _ => false end) /\
+  wrace_ok v (CClose 0) (RErr e) = false /\ wrace_ok v (CFutimens 0 None None) (RErr e) = false.
+Proof.
+  intros v p q e fl Hp.
+  assert (H : path_eqb p v = false) by (destruct (path_eqb p v) eqn:E; [apply path_eqb_eq in E; contradiction|reflexivity]).
+  cbn [wrace_ok]. rewrite H. pose proof (path_eqb_refl v) as Hv.
+  rewrite Hv. cbn [negb andb]. repeat split; destruct e; reflexivity.
+Qed.
+
+(** Non-vacuity: capacity 1, the directory holds "a" and "b", the trigger fires:
+    the set of "c" lists the directory, evicts, publishes.  With the stat of a
+    listed entry answered ENOENT (a peer evicted it in between) the run stays in
+    the class and still succeeds; with EIO it leaves the class and the error
+    surfaces. *)
+Example C05_writer_example :
+  let mk (f : fs) (p : path) (c : N) :=
+    let '(f1, i) := alloc_inode f (mkInode false [c] 292 100%Z 50%Z 1 true) in
+    set_names f1 ((p, i) :: names f1) in
+  let '(f0, d) := alloc_inode empty_fs (mkInode true [] 493 0%Z 0%Z 2 true) in
+  let f0 := set_names f0 ((["w"%string], d) :: names f0) in
+  let f := mk (mk (mk f0 ["w"; "a"]%string 65%N) ["w"; "b"]%string 67%N) ["v"%string] 66%N in
+  let cfg := mkStack 0 (Some (FPlain ["w"%string] 1)) [] None false ["systmp"%string] in
+  let go flt :=
+    let o := mkOracle [1000; 1001; 1002; 1003; 1004]%Z [1%N] [] [] [] flt 0 1%Z Relatime in
+    let '(r, w1, _, tr) := run (cache_set cfg (mkKey "c"%string 1 2) ["v"%string]) (mkWorld f 0 []) o in
+    (match r with Ok _ => 0 | Err _ => 2 | Panic => 3 end, mon_run (w_step ["v"%string]) true tr,
+     existsb (fun ev => match ev with EvCall (COpenDir _) _ => true | _ => false end) tr, name_of (w_fs w1) ["w"; "c"]%string)%nat in
+  go None = (0%nat, Some true, true, Some 4%nat) /\
+  go (Some (2%nat, ENOENT)) = (0%nat, Some true, true, Some 4%nat) /\
+  (let '(r, m, l, _) := go (Some (2%nat, EIO)) in (r, m, l)) = (2%nat, Some false, true).
+Proof. vm_compute. repeat split. Qed.
 
 (** The response class, spelled out for the calls lookups make. *)
 Theorem C05_race_class : forall p a e,
